@@ -85,9 +85,13 @@ def plan(tier):
              {"state": "Dense, 64 packed rows (one full bitmap word)", "written_row": "63+%d" % gap}, "grow_words")
     # (the ColumnStore-level `store_step` harness exists in c30.rs but gives no verdict in 15 min: String keys through
     #  the index map plus three set_property calls; it is not scheduled)
-    emit("c30_spill_min_bool", 9, "column_spill(0, 1, 0, false);",
+    if tier != "quick":
+        emit("c30_rebase_words", 200, "dense_rebase_words();",
+             {"state": "Dense, 128 rows at base 64, one hole", "written_row": "0 (rebase by exactly one bitmap word)"}, "rebase_words")
+    if tier != "quick":
+      emit("c30_spill_min_bool", 9, "column_spill(0, 1, 0, false);",
          {"state": "Column::Int(Dense), base 0, span 1", "written_row": "slot0 (overwrites a present or absent row)", "value_type": "Boolean"}, "column_spill")
-    emit("c30_spill_min_float", 9, "column_spill(0, 1, 1, true);",
+      emit("c30_spill_min_float", 9, "column_spill(0, 1, 1, true);",
          {"state": "Column::Int(Dense), base 0, span 1", "written_row": "just above", "value_type": "Float"}, "column_spill")
     sparse = [([], 5), ([5], 5), ([5], 9), ([5, 6], 7), ([5, 6, 7], 8), ([5, 6, 7], 6), ([5, 6, 9], 1 << 50), ([10, 11, 12], 9)]
     if tier != "quick":
